@@ -26,16 +26,32 @@ def run(tier, seed, replay=None):
         n = 4000 if tier == "quick" else 250000
         sources = [b"", b"#", b"# c", b"\n", b"\xff", b"x", b"LDAC", b"OPR", b"DATA -", b"FUNC", b"LDAC -2147483648",
                    b"BR x", b"x x BR x", b"LDAM x OPR ADD x OPR SVC"] + shipped[:4]
+        # every mnemonic as the operand of OPR; every directive cut off at end of file, with and without a trailing newline
+        for m in G.ALL + G.OPR + ["OPR", "DATA", "FUNC", "PROC", "x", "7", "-", "-7"]:
+            sources += [f"LDAC 1\nOPR {m}\n".encode(), f"OPR {m}".encode(), f"LDAC 1\nLDAC 2\nLDAC 3\nLDAC 4\nLDAC 5\n{m}".encode(),
+                        f"x\nBR x\n{m} ".encode(), f"{m} {m}\n".encode(), f"{m} -\n".encode(), f"{m} - {m}\n".encode()]
+        # long tokens, many labels, duplicate and DATA-only labels, numbers of many digits
+        for k in (64, 255, 256, 1000, 5000):
+            lab = "L" * k
+            sources += [f"{lab}\nBR {lab}\n".encode(), f"BR {lab}\n".encode(), f"LDAC {'9' * k}\n".encode(), f"DATA -{'9' * k}\n".encode(),
+                        ("\n".join(f"l{i}" for i in range(k)) + "\nOPR SVC\n").encode(),
+                        ("\n".join(f"l{i}\nBR l{(i * 7) % k}" for i in range(min(k, 1000))) + "\n").encode(),
+                        ("x\n" * k + "BR x\n").encode(), ("#" + "c" * k).encode(), ("#" + "c" * k + "\nOPR SVC").encode()]
+        sources += [b"x\nx\nBR x\n", b"x\nDATA 1\nx\nDATA 2\nLDAM x\n", b"d\nDATA 5\nBR d\n", b"d\nDATA 5\nLDAM d\nLDAC d\nLDAP d\n",
+                    b"FUNC\n", b"PROC\n", b"FUNC 5\n", b"FUNC f\nFUNC f\nBR f\n", b"PROC p\n", b"FUNC f\n", b"a\nb\nc\n", b"a", b"a b c",
+                    b"LDAC - 5\n", b"LDAC --5\n", b"LDAC -\n5\n", b"DATA\n", b"DATA x\n", b"DATA - x\n", b"\x00", b"LDAC 1\x00\n", b"LDAC\x001\n"]
         sources += [G.malformed(r, shipped) for _ in range(n)]
     recs = A.assemble_all(h, drv, sources, want_tokens=True)
     cls = Counter()
-    faults, mism = [], []
+    faults, mism, leftover = [], [], []
     kinds = set()
     for rec in recs:
         a = rec["real"]
         k = " ".join(a.split(" ")[:2]) if not a.startswith("ok") else "ok"
         cls[k] += 1
         kinds.add(k)
+        if rec.get("left") is not None:
+            leftover.append(rec)
         if a.startswith("fault") or rec["tok_real"].startswith("fault"):
             faults.append(rec)
         elif a != rec["model"] or rec["tok_real"] != rec["tok_model"]:
@@ -53,6 +69,7 @@ def run(tier, seed, replay=None):
                 "non-trivial = longer than 3 bytes, distinct by content; outcome classes below",
         "samples": [s.decode("latin1")[:120] for s in sources[20:24]],
         "outcome_classes": dict(cls), "model_vs_impl_mismatches": len(mism), "faults": len(faults),
+        "diagnostic_but_output_left_behind": len(leftover),
         "traces_validated_against_impl": len(sources) - len(mism) - len(faults),
     })
     rep.assumptions += ["inputs are up to a few kilobytes (property quantifier); the theorem covers < 2^26 bytes"]
@@ -65,6 +82,17 @@ def run(tier, seed, replay=None):
         rr = A.assemble_all(h, drv, [small], want_tokens=True)[0]
         rep.violation("fault", {"source_hex": small.hex(), "source": small.decode("latin1"), "implementation": rr["real"],
                                 "tokens": rr["tok_real"][:200], "model": rr["model"][:300], "seed": seed, "count": len(faults)})
+    elif leftover:
+        rec = leftover[0]
+        def fails(src):
+            rr = A.assemble_all(h, drv, [src])[0]
+            return rr.get("left") is not None
+        small = A.shrink_source(rec["src"], fails)
+        rr = A.assemble_all(h, drv, [small])[0]
+        rep.violation("emits-on-error", {"source_hex": small.hex(), "source": small.decode("latin1"), "implementation": rr["real"],
+                                         "output_bytes_left_behind": rr.get("left"), "model": rr["model"][:300], "seed": seed,
+                                         "broken": "a diagnostic was reported but the output file exists (clause: reports a diagnostic "
+                                                   "and emits nothing)", "count": len(leftover)})
     elif mism:
         rec = mism[0]
         rep.violation("correspondence", {"source_hex": rec["src"].hex(), "source": rec["src"].decode("latin1")[:500],
@@ -73,7 +101,7 @@ def run(tier, seed, replay=None):
                                          "broken": "outcome class/location or token stream differs between model and hexasm.hpp",
                                          "count": len(mism)}, no_input=True)
     if problems:
-        rep.violation("proof", {"broken": problems}, no_input=not faults)
+        rep.violation("proof", {"broken": problems}, no_input=not (faults or leftover))
     if replay:
         for rec in recs:
             print(rec)
